@@ -13,19 +13,20 @@ META = {
             "int, double and a struct with logged non-commutative + and *.  Functors are non-commutative and log their "
             "arguments, so a different call order or argument order is observed even when the value agrees.  Held on the "
             "cases executed only.",
-    "note": "Trusted: libstdc++'s algorithms as the reference.  accumulate(op) and max_element(comp) are each compared "
-            "twice: once with the same functor given to std (the property as stated) and once with std receiving the "
-            "functor with swapped arguments (the library's own element-first convention) so that other defects of these "
-            "algorithms are still seen.  fsalgo::loop is not instantiable (do_loop::exe is a non-static member called "
+    "note": "Trusted: libstdc++'s algorithms as the reference.  accumulate(+), accumulate(op) and max_element(comp) are each "
+            "compared twice: once with the same functor given to std (the property as stated) and once as a control that "
+            "accepts the std result with the functor/operands taken either way round (silent whichever convention the "
+            "library adopts) so that other defects of these algorithms are still seen.  fsalgo::loop is not instantiable (do_loop::exe is a non-static member called "
             "without object) and is not in the property's list: not exercised.",
 }
 
 SRC = vfcore.VERIF / "harness/math/c18.cxx"
 ALGS = ["copy", "copy/overlap-left", "copy/list-iterators", "fill", "transform(unary)", "transform(unary)/in-place",
-        "transform(binary)", "accumulate(+)", "accumulate(op):std-argument-order", "accumulate(op):element-first",
+        "transform(binary)", "accumulate(+)", "accumulate(+):either-operand-order", "accumulate(op):std-argument-order",
+        "accumulate(op):either-convention",
         "inner_product(+,*)", "inner_product(op1,op2)", "inner_product<T>(no init)", "equal(==)", "equal(pred)", "for_each",
         "generate", "iota", "min_element(<)", "min_element(comp)", "max_element(>)",
-        "max_element(comp):std-comparator-meaning", "max_element(comp):element-first", "swap_ranges"]
+        "max_element(comp):std-comparator-meaning", "max_element(comp):either-convention", "swap_ranges"]
 BUCKETS = ["N=0", "N=1", "N=2..10", "N=11..64"]
 
 
@@ -49,7 +50,7 @@ def build(ctx):
 
 def run(ctx):
     bins = build(ctx)
-    ctx.cov["rule"] = ("case = (repetition index, N in 0..64, element type, algorithm variant); every repetition runs all 65 sizes x 24 "
+    ctx.cov["rule"] = ("case = (repetition index, N in 0..64, element type, algorithm variant); every repetition runs all 65 sizes x 25 "
                        "variants x 3 types with fresh random contents (half of them from a 5-value alphabet to force ties); "
                        "distinct = hash of the reference's destination image and call log; N=0 cases are trivial (one hash)")
     req = [("%s<%s>" % (a, t), b, 1) for a in ALGS for t in ("int", "double", "struct") for b in BUCKETS]
